@@ -333,7 +333,42 @@ func DefinitelyFails(ret *ssa.Return) bool {
 	if ei < 0 || ei >= len(ret.Results) {
 		return false
 	}
-	return nonNilError(ret.Results[ei], ret.Block(), 0)
+	return nonNilError(unspill(ret.Results[ei], ret), ret.Block(), 0)
+}
+
+// unspill resolves a result that go/ssa spilled to a stack slot because the
+// function has a defer: "*r = v; rundefers; t = *r; return t" yields v.
+func unspill(v ssa.Value, at ssa.Instruction) ssa.Value {
+	ld, ok := v.(*ssa.UnOp)
+	if !ok || ld.Op != token.MUL {
+		return v
+	}
+	al, ok := ld.X.(*ssa.Alloc)
+	if !ok {
+		return v
+	}
+	b := at.Block()
+	var last ssa.Value
+	for _, in := range b.Instrs {
+		if in == at {
+			break
+		}
+		if st, ok := in.(*ssa.Store); ok && st.Addr == al {
+			last = st.Val
+		}
+	}
+	if last != nil {
+		return last
+	}
+	return v
+}
+
+// ResultOf returns result i of a return instruction, seen through defer spilling.
+func ResultOf(ret *ssa.Return, i int) ssa.Value {
+	if i >= len(ret.Results) {
+		return nil
+	}
+	return unspill(ret.Results[i], ret)
 }
 
 func nonNilError(v ssa.Value, at *ssa.BasicBlock, depth int) bool {
@@ -420,6 +455,9 @@ func SuccessReturns(fn *ssa.Function) []*ssa.Return {
 			continue
 		}
 		if r, ok := b.Instrs[len(b.Instrs)-1].(*ssa.Return); ok {
+			if b == fn.Recover {
+				continue
+			}
 			if !DefinitelyFails(r) {
 				out = append(out, r)
 			}
